@@ -120,6 +120,15 @@ def regex_patterns(patterns, corpus):
             rep = b'<>' if kind is bytes else '<>'
             n += _cmp('sub %r' % (real.pattern,), lambda x: real.sub(rep, x),
                       lambda x: sp_.sub(rep, lift(x)) if len(x) else sp_.sub(rep, x), s)
+            n += _cmp('split %r' % (real.pattern,), lambda x: real.split(x), lambda x: sp_.split(lift(x)) if len(x) else sp_.split(x), s)
+            n += _cmp('split2 %r' % (real.pattern,), lambda x: real.split(x, 2), lambda x: sp_.split(lift(x), 2) if len(x) else sp_.split(x, 2), s)
+            n += _cmp('findall %r' % (real.pattern,), lambda x: real.findall(x), lambda x: sp_.findall(lift(x)) if len(x) else sp_.findall(x), s)
+            if real.groups >= 1:
+                tm = b'[\\1|\\g<1>]\\\\' if kind is bytes else '[\\1|\\g<1>]\\\\'
+                n += _cmp('sub-template %r' % (real.pattern,), lambda x: real.subn(tm, x),
+                          lambda x: sp_.subn(tm, lift(x)) if len(x) else real.subn(tm, x), s)
+            n += _cmp('sub-callable %r' % (real.pattern,), lambda x: real.sub(lambda m: m.group(0)[:1] + rep, x, 2),
+                      lambda x: sp_.sub(lambda m: m.group(0)[:1] + rep, lift(x), 2) if len(x) else real.sub(lambda m: m.group(0)[:1] + rep, x, 2), s)
             n += _cmp('finditer %r' % (real.pattern,), lambda x: [list(m.span()) for m in real.finditer(x)],
                       lambda x: [list(m.span()) for m in (sp_.finditer(lift(x)) if len(x) else sp_.finditer(x))], s)
     return n
@@ -238,6 +247,29 @@ def codecs():
     for cp in [0, 0x7f, 0x80, 0x7ff, 0x800, 0xd7ff, 0xd800, 0xdfff, 0xe000, 0xffff, 0x10000, 0x10ffff, 0xfeff, 0xfffe]:
         for enc in ['utf-8', 'utf-16', 'utf-16-be', 'utf-32', 'utf-32-be', 'latin-1', 'ascii', 'utf-8-sig']:
             n += _cmp('encode-cp[%s]' % enc, lambda x: x.encode(enc), lambda x: codecs_model.encode(x, enc), chr(cp))
+    # codecs outside the bit-exact model (table codecs, non-text codecs, unknown names), name symbolic and pinned
+    for enc in ['cp1252', 'koi8-r', 'uu', 'hex', 'rot13', 'base64', 'zlib', 'idna', 'punycode', 'no-such', 'U8', 'l1', 'Utf_16']:
+        for t in ['a', 'hi\n', 'é']:
+            n += _cmp('encode-name[%s]' % enc, lambda x, e: x.encode(e), lambda x, e: codecs_model.encode(lift(x), lift(e)), t, enc)
+        for b in [b'a', b'{}\n', b'\xe9', b'begin 666 x\n \nend\n']:
+            n += _cmp('decode-name[%s]' % enc, lambda x, e: x.decode(e), lambda x, e: codecs_model.decode(lift(x), lift(e)), b, enc)
+    return n
+
+
+def stream_lines():
+    n = 0
+    for data in [b'', b'a', b'a\n', b'\n\n', b'ab\ncd', b'ab\r\ncd\n', b'\nx']:
+        def script(mk):
+            def run(d):
+                fp = mk(d)
+                out = [fp.readline(), fp.tell(), fp.readline(1), fp.readline(0), fp.read(1), fp.readline(), fp.tell()]
+                fp.seek(0)
+                out.append(fp.readlines())
+                fp.seek(0)
+                out.append(list(fp))
+                return out
+            return run
+        n += _cmp('readline', script(io.BytesIO), script(lambda d: SymStream(lift(d) if len(d) else d)), data)
     return n
 
 
@@ -268,7 +300,7 @@ def streams():
 
 def main():
     tot = 0
-    for f in (seq_methods, int_model, regex_generic, nfa_vs_re, codecs, streams):
+    for f in (seq_methods, int_model, regex_generic, nfa_vs_re, codecs, streams, stream_lines):
         k = f()
         print('%-16s %6d concrete runs agree' % (f.__name__, k))
         tot += k
